@@ -545,6 +545,7 @@ class MultipartDownloader:
                 filename,
                 object_size,
                 callback,
+                extra_args,
             )
             parts_future = controller.submit(download_parts_handler)
 
@@ -564,7 +565,7 @@ class MultipartDownloader:
             future.result()
 
     def _download_file_as_future(
-        self, bucket, key, filename, object_size, callback
+        self, bucket, key, filename, object_size, callback, extra_args=None
     ):
         part_size = self._config.multipart_chunksize
         num_parts = int(math.ceil(object_size / float(part_size)))
@@ -577,6 +578,7 @@ class MultipartDownloader:
             part_size,
             num_parts,
             callback,
+            extra_args,
         )
         try:
             with self._executor_cls(max_workers=max_workers) as executor:
@@ -594,8 +596,18 @@ class MultipartDownloader:
         return range_param
 
     def _download_range(
-        self, bucket, key, filename, part_size, num_parts, callback, part_index
+        self,
+        bucket,
+        key,
+        filename,
+        part_size,
+        num_parts,
+        callback,
+        extra_args,
+        part_index,
     ):
+        if extra_args is None:
+            extra_args = {}
         try:
             range_param = self._calculate_range_param(
                 part_size, part_index, num_parts
@@ -607,7 +619,7 @@ class MultipartDownloader:
                 try:
                     logger.debug("Making get_object call.")
                     response = self._client.get_object(
-                        Bucket=bucket, Key=key, Range=range_param
+                        Bucket=bucket, Key=key, Range=range_param, **extra_args
                     )
                     streaming_body = StreamReaderProgress(
                         response['Body'], callback
